@@ -275,12 +275,12 @@ class Batch:
         shutil.rmtree(self.dir, ignore_errors=True)
         os.makedirs(self.dir, exist_ok=True)
 
-    def spawn(self, args, tag, progress=False, binary=None):
+    def spawn(self, args, tag, progress=False, binary=None, env=None, cwd=None):
         out = os.path.join(self.dir, f"{tag}.json")
         err = open(os.path.join(self.dir, f"{tag}.err"), "w")
         prog = os.path.join(self.dir, f"{tag}.progress")
         extra = ["--progress", prog] if progress else []
-        p = subprocess.Popen([binary or BIN, *args, *extra, "--out", out, "--replay-dir", REPLAYS], env=ENV, stdout=err, stderr=err)
+        p = subprocess.Popen([binary or BIN, *args, *extra, "--out", out, "--replay-dir", REPLAYS], env=env or ENV, cwd=cwd, stdout=err, stderr=err)
         self.procs.append(dict(p=p, out=out, tag=tag, args=args, prog=prog if progress else None, last=None, last_t=time.time()))
 
     def wait(self, timeout_s):
@@ -549,11 +549,18 @@ def selftest(seed, n, raws, layouts=None, quiet=False, only_run=None):
     layouts = layouts or [1, 3, 8]
     logs = {}
     b = Batch("selftest")
-    for W in layouts:
+    # The second layout also runs in a different process ENVIRONMENT (locale, time zone, colour and
+    # terminal variables, working directory): results may depend on the input, the extensions and
+    # the converter only, not on any of these.
+    other_env = dict(ENV)
+    other_env.update({"LANG": "de_DE.UTF-8", "LC_ALL": "de_DE.UTF-8", "LC_NUMERIC": "de_DE.UTF-8", "TZ": "Pacific/Kiritimati", "NO_COLOR": "1",
+                      "CLICOLOR": "0", "CLICOLOR_FORCE": "0", "TERM": "dumb", "COLUMNS": "20", "LINES": "5", "HOME": "/nonexistent", "RUST_BACKTRACE": "0",
+                      "RUST_LOG": "trace", "COOKLANG_DEBUG": "1"})
+    for li, W in enumerate(layouts):
         for w in range(W):
             dump = os.path.join(b.dir, f"log-{W}-{w}.txt")
             b.spawn(["c18", "--seed", str(seed), "--salt", "4", "--runs", str(n), "--worker", str(w), "--workers", str(W),
-                     "--scheds", "2", "--dump-log", dump], f"st-{W}-{w}")
+                     "--scheds", "2", "--dump-log", dump], f"st-{W}-{w}", env=other_env if li == 1 else None, cwd="/" if li == 1 else None)
     outs, hung = b.wait(1200)
     if hung:
         die(f"selftest workers hung: {hung}")
